@@ -29,9 +29,6 @@
 (*                      not extend to a model of the CNF                   *)
 (*   refused_encodable  the call raised for a constraint the layer is      *)
 (*                      documented to encode                               *)
-(*   refusal_consistent a constraint record that some manager of this      *)
-(*                      process accepted before is refused now (the same   *)
-(*                      constraint must be treated the same every time)    *)
 (*   sat_iff            solve() # (allowed # {})                           *)
 (*   model_ok           satisfiable but the exposed model (value()) is not *)
 (*                      0/1, inconsistent for -v, or violates a constraint *)
@@ -44,8 +41,10 @@
 (*                      assignment extends rho, or implies a literal some  *)
 (*                      allowed extension contradicts (a consequence of    *)
 (*                      exactness, hence a property clause)                *)
-(* Model conformance (-> drift): refusal as specified; store and diagram   *)
-(* id as specified by Robdd!Build; propagation result as UnitProp yields   *)
+(* Model conformance (-> drift): refusal as specified (also: a clause-     *)
+(* shaped strict inequality refused; a record accepted earlier in the      *)
+(* process refused now -- the statement leaves refusals free); store and   *)
+(* diagram id as specified by Robdd!Build; propagation result as UnitProp yields   *)
 (* on the specified CNF.                                                   *)
 (* Information only (-> ac, printed with the verdict, no claim attached):  *)
 (* for every probe whether propagation was complete ("undetected": rho has *)
@@ -75,8 +74,12 @@ PostClauses(e, mg) ==
       obs == ObsAllowed(e)
   IN [sound |-> obs \subseteq expected,
       complete |-> expected \subseteq obs,
-      refused_encodable |-> e.refused = 1 => Refusable(e.c),
-      refusal_consistent |-> e.refused = 1 => ~\E i \in DOMAIN mgrs : \E j \in DOMAIN mgrs[i].posted : mgrs[i].posted[j] = e.c]
+      refused_encodable |-> e.refused = 1 => Refusable(e.c)]
+\* observations about refusals that the statement leaves free (a refusal is never a silent drop): drift only
+RefusalDrift(e) ==
+  IF e.refused = 0 THEN {}
+  ELSE (IF RefusedAsCoded(e.c) THEN {} ELSE {"refusal_of_clause_shaped"})
+       \cup (IF \E i \in DOMAIN mgrs : \E j \in DOMAIN mgrs[i].posted : mgrs[i].posted[j] = e.c THEN {"refusal_inconsistent"} ELSE {})
 
 SolveClauses(e, mg) ==
   LET good == e.sat = 1 /\ Len(e.model) = Len(T.vars) /\ IsBits(e.model) IN
@@ -113,13 +116,14 @@ Step == /\ l <= Len(T.events)
                      THEN LET P == Post(e.c, mg, store) IN
                           /\ mgrs' = [mgrs EXCEPT ![e.m] = P.m]
                           /\ store' = P.store
-                          /\ drift' = drift
+                          /\ drift' = drift \cup { <<l, d>> : d \in RefusalDrift(e) }
                                 \cup (IF (e.refused = 1) = P.refused THEN {} ELSE {<<l, "refusal">>})
                                 \cup (IF e.store = P.store /\ (P.root >= 0 => e.root = P.root) THEN {} ELSE {<<l, "store">>})
                      ELSE \* property level only: allowed follows the definition, nothing else is replayed
                           /\ mgrs' = [mgrs EXCEPT ![e.m].allowed = IF e.refused = 1 THEN @ ELSE @ \cap SatSet(e.c),
                                                    ![e.m].posted = IF e.refused = 1 THEN @ ELSE Append(@, e.c)]
-                          /\ UNCHANGED <<store, drift>>
+                          /\ drift' = drift \cup { <<l, d>> : d \in RefusalDrift(e) }
+                          /\ UNCHANGED store
                   /\ lastm' = e.m /\ lastc' = e.c /\ lastref' = (e.refused = 1)
                   /\ UNCHANGED <<root, lastq, lastdec, nb>>
              [] e.ev = "prop" ->
